@@ -31,7 +31,8 @@ CLAIMS["C01"] = dict(
          "inserted edge; (3) IntersectEdges as a whole: from every consistent state the contour calls it makes leave exactly the edges on the "
          "solution boundary carrying output (11076 cells); (4) no product is formed in signed 64-bit arithmetic and no single-precision floating point is used (coordinates up to 2^61); (5) an "
          "intersection corrected into its scanbeam stays on an edge (x recomputed at the clamped y); (6) whoever may modify the local-minima list "
-         "invalidates its 'sorted' flag. "
+         "invalidates its 'sorted' flag; (7) GetSegmentIntersectPt, in both precision build options, stores - as a real-number formula - the "
+         "crossing point of the two lines (identity of polynomial normal forms, engine E14). "
          "A wrong reachable cell is a wrong region for some input in general position; the "
          "converse (the behaviour of C01) is NOT decided.",
     note="Assumes the code's stated invariants for wind_cnt / wind_cnt2 and that AEL neighbours are the geometric neighbours. AEL ordering, "
@@ -45,7 +46,8 @@ CLAIMS["C11"] = dict(
          "parameter (path rule, interprocedural through validating callees), exact validator tables, range test before every double->int64 scaling "
          "of caller data (and the bounds it tests take every vertex into account), exact C-boundary rejection sets evaluated over the whole uint8_t / "
          "precision domain by interpreting the function prefix, NoClip early return, succeeded_ re-armed by every Execute, and (no-exceptions "
-         "build) error codes consumed before a result is produced and every DoError paired with an error-code update. Genuine defects found are "
+         "build) error codes consumed before a result is produced (no call site resolves to a function that ends with an unread, possibly set "
+         "local error code) and every DoError paired with an error-code update. Genuine defects found are "
          "listed in known_findings.json (D8-D10) or repaired by fix: commits (D7, D13).",
     note="Does not decide that Execute returns true for all geometry (AddLocalMaxPoly mismatch reachability). Parameters are recognised by name "
          "(precision, decimal_prec, decimalPlaces) and int type.",
@@ -73,7 +75,8 @@ CLAIMS["C07"] = dict(
          "through abs(), hence +delta == -delta by construction; (iii) start/end cap dispatch tables extracted by interpreting both switches for "
          "every EndType equal Butt->DoBevel(i,i), Round->DoRound(i,i,PI), Square->DoSquare(i,i) and agree at both ends; (iv) Group::Group strips a "
          "closing vertex only for the closed end types Polygon and Joined (for open ends it is the end point of the last segment); (v) every function of "
-         "the offsetter computes the same x/y with and without USINGZ (sibling identity modulo Z erasure).",
+         "the offsetter computes the same x/y with and without USINGZ (sibling identity modulo Z erasure); (vi) the miter threshold derived from "
+         "MiterLimit is re-derived by every Execute before a join reads it (the join factor bound is the one of the limit in force).",
     note="Stroke geometry, cap extents, circles for points are NOT decided. Stale normals passed to a delta callback (D12) are reported under C12.",
     technique="static analysis: loop-carried-state dataflow + AST rule on reads of delta + interpreted dispatch tables",
     design="§3 E2/E3, §4 C07", engine="E2")
@@ -106,7 +109,8 @@ CLAIMS["C05"] = dict(
     text="Static decision of necessary clauses: the open-path contribution table (IsContributingOpen) and the toggle condition applied where an "
          "open edge crosses a closed edge (prefix of IntersectEdges) are extracted by abstract interpretation over a verified-uniform partition and "
          "equal the definition on every reachable cell; AddPaths_ drops a trailing vertex equal to the first vertex of the same path only for closed "
-         "paths; DoHorizontal keeps its end-of-segment tests active for a horizontal open end; BuildPath64 and BuildPathD treat open paths alike.",
+         "paths; DoHorizontal keeps its end-of-segment tests active for a horizontal open end; BuildPath64 and BuildPathD treat open paths alike; the builders pass isOpen according to outrec->is_open and are "
+         "handed a real open-solution object by every caller (a null one would send open records down the closed branch).",
     note="Positions of the cuts, lengths and independence of the closed solution are NOT decided.",
     technique="static analysis: abstract interpretation of decision code over finite partitions + sibling identity",
     design="§3 E3/E6, §4 C05", engine="E3")
@@ -138,7 +142,9 @@ CLAIMS["C13"] = dict(
          "negated winding numbers) and under subject/clip exchange for Intersection, Union, Xor; LocMinSorter, IntersectListSort and HorzSegSorter are "
          "strict weak orders depending only on their keys (all triples over a domain realising every weak ordering); point equality means 'same x and "
          "y' (z ignored) so duplicate / closing vertices are recognised; the closing-vertex test compares with the first vertex of the same path; twin "
-         "x/y locals read mirrored coordinates (transposition); no signed 64-bit products, no single-precision floating point (integer scaling).",
+         "x/y locals read mirrored coordinates (transposition); no signed 64-bit products, no single-precision floating point (integer scaling); "
+         "the cross-product predicates and the segment intersection are the textbook polynomials (engine E14), hence equivariant under "
+         "translation, transposition and scaling as real-number formulas.",
     note="Permutation/rotation invariance of the sweep (IsValidAelOrder tie-breaking) and the algebraic identities are NOT decided.",
     technique="static analysis: table symmetries on the abstractly interpreted decision function + comparator axioms by exhaustive interpretation",
     design="§3 E3, §4 C13", engine="E3")
@@ -148,7 +154,8 @@ CLAIMS["C15"] = dict(
          "(aligned node by node; the plain build has no z member, so z cannot flow into x, y or control); USINGZ-only functions write only z; "
          "must-follow analysis: every vertex created at a crossing in IntersectEdges reaches SetZ on all paths; DoSplitOp calls the callback before "
          "storing the point; SetZ's decision table (end point z first, subject before clip, else DefaultZ); ClipperD's proxy callback follows the user's "
-         "SetZCallback at every Execute (CheckCallback table, called before ExecuteInternal).",
+         "SetZCallback at every Execute (CheckCallback table, called before ExecuteInternal); a point that is only given new x and y "
+         "(GetSegmentIntersectPt's out-parameter) is a local of the innermost enclosing loop, so it carries the default z.",
     note="Sufficient-condition check: a one-sided behaviour-preserving rewrite of an #ifdef branch is reported. Trusted: callbacks write only pt.z. "
          "NOT decided: that the vertex a callback saw survives CleanCollinear.",
     technique="static analysis: AST alignment modulo named patterns + forward may-pending dataflow + interpreted decision table",
@@ -159,8 +166,13 @@ CLAIMS["C18"] = dict(
          "floating-point expression in CrossProductSign / ProductsAreEqual / IsCollinear / TriSign / Multiply and products only in 128 bits; the "
          "portable sign logic equals sign(sign_ab*|ab| - sign_cd*|cd|) on every consistent cell; Multiply's partial sums cannot wrap (interval proof); "
          "no signed 64-bit product and no single-precision floating point anywhere; PointInPolygon's wrap-around predecessor is the container's last "
-         "vertex on all reaching definitions; twin x/y locals (incl. the HI_PRECISION GetSegmentIntersectPt) read mirrored coordinates.",
-    note="That Multiply recombines the partial products correctly, and the numeric content of PointInPolygon, GetSegmentIntersectPt and Area, are NOT decided.",
+         "vertex on all reaching definitions; twin x/y locals (incl. the HI_PRECISION GetSegmentIntersectPt) read mirrored coordinates; "
+         "engine E14 (identities of polynomial normal forms): the two compared products of CrossProductSign / IsCollinear / ProductsAreEqual differ by "
+         "exactly the cross product, on both code paths (portable: magnitudes and signs of the same factors), the 128-bit tails return sign(ab-cd) / "
+         "(ab==cd) on every ordering and no 128-bit value is narrowed; GetSegmentIntersectPt's result lies on both lines and 'parallel' is the "
+         "vanishing of the direction cross product; CrossProduct, DotProduct, DistanceSqr, PerpendicDistFromLineSqrd, GetClosestPointOnSegment equal "
+         "their defining formulas.",
+    note="That Multiply recombines the partial products correctly, floating-point rounding of the formulas, the clamping branches, PointInPolygon's numeric content and Area's loop are NOT decided.",
     technique="static analysis: type rule on the AST + abstract interpretation over sign/ordering cells + interval analysis",
     design="§3 E3, §4 C18", engine="E3")
 
@@ -168,7 +180,8 @@ CLAIMS["C03"] = dict(
     category="other",
     text="Static decision of the structural part for all inputs: every closed path is built by CleanCollinear -> BuildPath with reverse_solution_ "
          "(must-precede dataflow over all 7 builder call sites); CleanCollinear's removal condition table; BuildPath's degenerate-ring guard table and "
-         "duplicate-skipping copy loop; option members written only by their setters; OutRec::path built only in CheckBounds; D builders equal 64 builders.",
+         "duplicate-skipping copy loop; option members written only by their setters; OutRec::path built only in CheckBounds; D builders equal 64 builders; "
+         "IsCollinear / CrossProduct / DotProduct (the collinearity and spike tests) are the textbook polynomials (engine E14).",
     note="Bounding box, zero area, spikes, crossings, orientation-vs-nesting, collinearity of the result and idempotence under Union are NOT decided.",
     technique="static analysis: must-precede dataflow + interpreted condition tables + sibling identity",
     design="§3 E10/E3/E6, §4 C03", engine="E10")
@@ -189,7 +202,7 @@ CLAIMS["C10"] = dict(
          "recursion of CheckSplitOwner); non-emptiness guards on every first/last-element access to input containers, "
          "interprocedurally from the public entries (found and, since the repair, proves the absence of the empty-path crash in ClipperOffset); "
          "operator new unreachable from every destructor / noexcept function, no catch handler, no nothrow-new (so bad_alloc reaches the caller); no "
-         "product in signed 64-bit arithmetic; sort comparators are strict weak orders; edges handed to AddOutPt & co. carry output (HOT.guard); no "
+         "product in signed 64-bit arithmetic; output-iterator algorithms append or write to a destination constructed with the source's size(); sort comparators are strict weak orders; edges handed to AddOutPt & co. carry output (HOT.guard); no "
          "pointer into RectClip's node store survives its reset; and, for the allocation-failure clause, every output-vertex ring is link-consistent "
          "at every statement that can throw and at every exit of the 14 functions that re-link rings (symbolic heap, all paths), and only "
          "provably orphaned vertices are deleted - which is what ~ClipperBase needs to free the rings after a std::bad_alloc.",
@@ -203,7 +216,8 @@ CLAIMS["C20"] = dict(
     text="Static decision of necessary clauses: TrimCollinear, SimplifyPath, RamerDouglasPeucker and StripNearEqual append only elements of the "
          "input (never a computed vertex), inside loops through forward-only cursors; keep/remove flags are monotone; StripDuplicates only erases; "
          "TrimCollinear's corner test is made against the last kept vertex; SimplifyPath's pinned end distances are never overwritten; every "
-         "distance/epsilon comparison of SimplifyPath and RDP draws the line at 'removable iff distance <= epsilon'. "
+         "distance/epsilon comparison of SimplifyPath and RDP draws the line at 'removable iff distance <= epsilon'; GetBounds' min/max update table; "
+         "PerpendicDistFromLineSqrd, DistanceSqr and IsCollinear are their defining polynomials (engine E14). "
          "The one flag-clearing site (RDP) is a genuine defect recorded as a known finding (D11).",
     note="Epsilon guarantees, area preservation, idempotence and the exact corner set are NOT decided.",
     technique="static analysis: AST rules on result construction and flag assignments",
@@ -225,7 +239,7 @@ CLAIMS["C19"] = dict(
     category="other",
     text="The swept-region equality is geometric and NOT decided. Decided statically are structural necessary conditions of detail::Minkowski and "
          "its four wrappers: empty input returns empty before anything is indexed; sum adds / difference subtracts the pattern point; the path's "
-         "closing edge is swept iff isClosed; quad corners; every quad is made positively oriented before the NonZero union; wrappers pass the "
+         "closing edge is swept iff isClosed and every other edge always (whether or not an operand's last vertex repeats its first); quad corners; every quad is made positively oriented before the NonZero union; wrappers pass the "
          "right flags; every call (recursion included) keeps pattern and path in their slots; PathD overloads scale in and out (dimensional analysis).",
     note="That the union of the parallelograms equals the swept region within 2 units is NOT decided.",
     technique="static analysis: AST rules and small interpreted tables",
@@ -288,6 +302,8 @@ def main():
              "kind_free_text": "subsequence-by-construction and monotone flags for the path utilities"},
             {"name": "E13", "path": "/verif/vlib/engines/e13_links.py", "serves_properties": ["C10"],
              "kind_free_text": "symbolic-heap execution of the ring-linking functions: link consistency at every throw point and exit"},
+            {"name": "E14", "path": "/verif/vlib/engines/e14_poly.py", "serves_properties": ["C18", "C01", "C13", "C03", "C20"],
+             "kind_free_text": "identities between polynomial normal forms of the numeric kernels (vlib/poly.py): intersection point, cross-product predicates, measurements"},
             {"name": "E12", "path": "/verif/vlib/engines/e12_plumbing.py", "serves_properties": ["C06", "C07", "C19"],
              "kind_free_text": "orientation / shortcut plumbing of ClipperOffset; structural clauses of Minkowski"},
             {"name": "E6", "path": "/verif/vlib/engines/e6_siblings.py", "serves_properties": ["C15", "C16", "C05"],
